@@ -2,7 +2,8 @@
 
 Cases: attrs classes (<= 5 fields, every order) whose fields are drawn from the grid
   {typed (a type both converter classes support), untyped, unsup (a class without any structure hook),
-   partial (Optional[<class without hook>]: the hook exists and raises StructureHandlerNotFoundError inside)}
+   partial (Optional[<class without hook>]: the hook exists and raises StructureHandlerNotFoundError inside),
+   broken (a class whose registered hook factory raises ValueError; required fields only)}
   x {no converter, converter K} x {required, default};
 every cell of the grid is additionally enumerated as a one-field class in every run.  K *tags* its output
 (`K(x) == (tag, x)`), so the structured instance shows whether K ran and on what (raw value vs hook result);
@@ -49,7 +50,18 @@ class NoHook:
         return "<NoHook>"
 
 
-TKS = ["typed", "untyped", "unsup", "partial"]
+class Broken:
+    """A class whose structure hook *factory* (registered on every converter below) raises ValueError: the lookup
+    of a hook raises something other than StructureHandlerNotFoundError.  Outside the property text; generated only
+    without default (with one it would be the eager-creation disagreement F35 again) so that every code path must
+    raise - unless the flag makes the converter win before any lookup."""
+
+
+def _broken_factory(t):
+    raise ValueError("hook factory raises")
+
+
+TKS = ["typed", "untyped", "unsup", "partial", "broken"]
 KKINDS = ["tag", "boom", "needint"]
 NAMES = ["a", "b", "c", "d", "e"]
 
@@ -96,7 +108,9 @@ def make_converter(c):
           "detailed_validation": c["detailed"], "prefer_attrib_converters": c["prefer"]}
     if c["legacy"]:
         kw["structure_fallback_factory"] = lambda _: raise_error
-    return (Converter if c["gen"] else BaseConverter)(**kw)
+    conv = (Converter if c["gen"] else BaseConverter)(**kw)
+    conv.register_structure_hook_factory(lambda t: t is Broken, _broken_factory)
+    return conv
 
 
 def fcfg_sx(c):
@@ -106,7 +120,7 @@ def fcfg_sx(c):
 # ------------------------------------------------------------------ abstract classes -> wire / python
 def ff_sx(f):
     tk = f["tk"]
-    ty = {"untyped": "-", "unsup": "unsup", "partial": "optunsup"}.get(tk) or "(ty %s)" % terms.ty_sx(f["ty"])
+    ty = {"untyped": "-", "unsup": "unsup", "partial": "optunsup", "broken": "broken"}.get(tk) or "(ty %s)" % terms.ty_sx(f["ty"])
     conv = "-" if f["conv"] is None else "(k %s %s)" % (f["conv"][0], terms.esc(f["conv"][1]))
     dflt = "-" if f["dflt"] is None else "(c %s)" % terms.obj_sx(f["dflt"])
     return "(ff %s %s %s %s)" % (terms.esc(f["name"]), ty, conv, dflt)
@@ -139,6 +153,8 @@ class World:
             return NoHook
         if tk == "partial":
             return Optional[NoHook]
+        if tk == "broken":
+            return Broken
         return None
 
     def make_class(self, fields):
@@ -187,6 +203,34 @@ def has_hook_by_kind(f):
     return f["tk"] in ("typed", "partial")
 
 
+def lookup_says(conv, t):
+    """what the implementation's hook lookup answers for t: 'hook' | 'nohook' | 'raises'"""
+    try:
+        h = conv.get_structure_hook(t, cache_result=False)
+    except StructureHandlerNotFoundError:
+        return "nohook"
+    except Exception:  # noqa: BLE001
+        return "raises"
+    return "nohook" if h == raise_error else "hook"
+
+
+def check_kinds(chk, W, c, fields, seen):
+    """the oracle's reading of 'T has a hook' (by construction of the field kind) must be the implementation's"""
+    conv = W.conv(c)
+    for f in fields:
+        if f["tk"] == "untyped":
+            continue
+        k = (id(conv), f["tk"], repr(f["ty"]))
+        if k in seen:
+            continue
+        seen.add(k)
+        want = {"typed": "hook", "partial": "hook", "unsup": "nohook", "broken": "raises"}[f["tk"]]
+        got = lookup_says(conv, W.py_type(f))
+        if got != want:
+            chk.violation(f"C20 oracle precondition: hook lookup for a `{f['tk']}` field type answers {got}, expected {want} "
+                          f"[{cfg_name(c)} | {ff_sx(f)}]", {"op": "kind", "world": W.w, "cfg": c, "fields": [f]})
+
+
 def expected_field(W, conv, c, f, present, raw_py):
     """The property statement, for one field.  -> python value | ERR"""
     K = mk_conv(*f["conv"]) if f["conv"] is not None else None
@@ -200,6 +244,9 @@ def expected_field(W, conv, c, f, present, raw_py):
                 return ERR
             d = W.S.R.val(f["dflt"])
             return K(d) if K else d
+        if f["tk"] == "broken":
+            # not covered by the property text: the lookup neither finds a hook nor reports "no hook"
+            return K(raw_py) if (K is not None and c["prefer"]) else ERR
         if K is not None:
             if c["prefer"] or f["tk"] == "untyped" or not has_hook_by_kind(f):
                 return K(raw_py)
@@ -316,9 +363,14 @@ def run_case(chk, W, cl, fields, c, presents, raws, cut, stats, raws_py=None):
         chk.note("unmodelled:lookalike-hazard")
         return
     conv = W.conv(c)
+    check_kinds(chk, W, c, fields, stats["kinds_seen"])
     if raws_py is None:
         raws_py = [W.S.R.val(r) for r in raws]
-    payload_py = W.S.R.val(payload_abs)
+    # the payload is built from the very objects the abstract raws were read back from (iteration order of sets)
+    if c["tuple"]:
+        payload_py = [raws_py[i] for i in range(cut)]
+    else:
+        payload_py = {f["name"]: raws_py[i] for i, f in enumerate(fields) if presents[i]}
     oi, exc = impl_outcome(W, conv, cl, fields, payload_py)
     per = expected_outcome(W, conv, c, fields, pres, raws_py)
     oe = whole(per, fields)
@@ -387,7 +439,7 @@ def gen_default(chk, G, W, f):
 
 def gen_field(chk, G, W, name, tk=None, conv=None, dflt=None):
     r = chk.rng
-    f = {"name": name, "tk": tk or r.choices(TKS, weights=[45, 25, 20, 10])[0], "ty": None, "conv": None, "dflt": None}
+    f = {"name": name, "tk": tk or r.choices(TKS, weights=[45, 25, 18, 8, 4])[0], "ty": None, "conv": None, "dflt": None}
     if f["tk"] == "typed":
         f["ty"] = gen_typed(chk, G, W)
     # fields of an unsupported type without converter make every payload fail: keep them rarer
@@ -395,6 +447,8 @@ def gen_field(chk, G, W, name, tk=None, conv=None, dflt=None):
     if has_conv:
         f["conv"] = (r.choice(KKINDS) if r.random() < 0.5 else "tag", "K" + name)
     has_d = (r.random() < 0.45) if dflt is None else dflt
+    if f["tk"] == "broken":
+        has_d = False
     if has_d:
         f["dflt"] = gen_default(chk, G, W, f)
     return f
@@ -441,15 +495,17 @@ def gen_raw1(chk, G, W, f, valid_only):
 
 
 def realise_raws(chk, W, kinds_raws):
-    out = []
+    """-> (abstract raws as re-read from the realised objects, the realised objects)"""
+    out, out_py = [], []
     for kind, r in kinds_raws:
         try:
-            _, r2 = W.S.realise(r)
+            v, r2 = W.S.realise(r)
         except Exception:  # noqa: BLE001
-            kind, r2 = "leaf", ("i", 1)
+            kind, r2, v = "leaf", ("i", 1), 1
         chk.note("raw:" + kind)
         out.append(r2)
-    return out
+        out_py.append(v)
+    return out, out_py
 
 
 GRID_RAWS = [("s", "5"), ("s", "zz"), ("s", "boom"), ("N",), ("i", 7), ("l", [("s", "1")])]
@@ -461,6 +517,8 @@ def run_grid(chk, G, W, stats):
     for tk in TKS:
         for has_k in (False, True):
             for has_d in (False, True):
+                if tk == "broken" and has_d:
+                    continue
                 kinds = KKINDS if has_k else [None]
                 for kk in kinds:
                     f = {"name": "x", "tk": tk, "ty": "int" if tk == "typed" else None,
@@ -491,8 +549,7 @@ def run_random(chk, G, W, n_classes, stats, n_payloads=3):
         cfgs = base + r.sample(legacy, 2)
         for _ in range(n_payloads):
             valid_only = r.random() < 0.5
-            raws = realise_raws(chk, W, [gen_raw(chk, G, W, f, valid_only) for f in fields])
-            raws_py = [W.S.R.val(x) for x in raws]
+            raws, raws_py = realise_raws(chk, W, [gen_raw(chk, G, W, f, valid_only) for f in fields])
             presents = [r.random() < (0.9 if valid_only else 0.75) for _ in fields]
             cut = n if r.random() < 0.7 else r.randint(0, n)
             for c in cfgs:
@@ -501,14 +558,21 @@ def run_random(chk, G, W, n_classes, stats, n_payloads=3):
 
 def run(chk: framework.Check):
     drv = lean.Driver()
-    G = gen.Gen(chk.rng)
-    stats = {"oracle_fail": 0, "corr_fail": [], "corr_fail_with_oracle_fail": 0, "in_scope": 0, "out_of_scope": 0}
+    # nested world classes: no self-referential classes, and no identity field converters (`idconv`): inside a hook
+    # for T the data-path model (Conv/) does not know prefer_attrib_converters; converters are studied on the
+    # top-level class, whose field types are the T of the property
+    G = gen.Gen(chk.rng, recursive=False)
+    stats = {"oracle_fail": 0, "corr_fail": [], "corr_fail_with_oracle_fail": 0, "in_scope": 0, "out_of_scope": 0,
+             "kinds_seen": set()}
     n_worlds, per_world = (60, 10) if chk.tier == "quick" else (600, 12)
     made = 0
     attempts = 0
     while made < n_worlds and attempts < n_worlds * 3:
         attempts += 1
         w = G.world()
+        for c in w["classes"]:
+            for f in c["fields"]:
+                f.pop("idconv", None)
         try:
             W = World(drv, w)
         except Exception:  # noqa: BLE001
@@ -545,6 +609,12 @@ def replay(case):
     drv = lean.Driver()
     w = terms.world_from_json(case["world"])
     W = World(drv, w)
+    if case.get("op") == "kind":
+        f = dict(case["fields"][0])
+        f["ty"] = terms.tuple_ify(f["ty"]) if f["ty"] is not None else None
+        got = lookup_says(W.conv(case["cfg"]), W.py_type(f))
+        print("field kind:", f["tk"], " lookup answers:", got)
+        return 1
     fields = []
     for f in case["fields"]:
         f2 = dict(f)
@@ -552,7 +622,8 @@ def replay(case):
         f2["conv"] = tuple(f["conv"]) if f["conv"] is not None else None
         f2["dflt"] = terms.tuple_ify(f["dflt"]) if f["dflt"] is not None else None
         fields.append(f2)
-    raws = [terms.tuple_ify(r) for r in case["raws"]]
+    pairs = [W.S.realise(terms.tuple_ify(r)) for r in case["raws"]]
+    raws, raws_py = [a for _, a in pairs], [v for v, _ in pairs]
     c = case["cfg"]
     cl = W.make_class(fields)
     payload_abs, pres = payload_of(c, fields, case["presents"], raws, case["cut"])
@@ -560,8 +631,12 @@ def replay(case):
     print("class  :", fields_sig(fields))
     print("config :", cfg_name(c))
     print("payload:", terms.canon_sx(payload_abs))
-    oi, exc = impl_outcome(W, conv, cl, fields, W.S.R.val(payload_abs))
-    per = expected_outcome(W, conv, c, fields, pres, [W.S.R.val(r) for r in raws])
+    if c["tuple"]:
+        payload_py = [raws_py[i] for i in range(case["cut"])]
+    else:
+        payload_py = {f["name"]: raws_py[i] for i, f in enumerate(fields) if case["presents"][i]}
+    oi, exc = impl_outcome(W, conv, cl, fields, payload_py)
+    per = expected_outcome(W, conv, c, fields, pres, raws_py)
     oe = whole(per, fields)
     om, scope = model_outcome(W, c, fields, payload_abs)
     print("impl   :", canon(oi), repr(exc)[:300] if exc is not None else "")
